@@ -59,3 +59,13 @@ Qed.
 Lemma global_scope_is_anonymous_namespace t : wf t = true -> lns t <> [] ->
   hd [] (splitlines (str_namespace [] t)) = L "namespace {".
 Proof. intros Hw Hn. rewrite namespace_lines by (auto; constructor). reflexivity. Qed.
+
+(* ---------- support file names are not an injective function of the namespace prefix (refutes coexistence, K10) ---------- *)
+
+Lemma prefix_file_names_not_injective :
+  exists p q, p <> q /\ sf_file_ns (Some p) = sf_file_ns (Some q) /\ sf_ns (Some p) <> sf_ns (Some q).
+Proof.
+  exists [L "A"; L "B"], [L "A_B"]. split; [discriminate|]. split; [vm_compute; reflexivity|vm_compute; discriminate].
+Qed.
+
+
